@@ -32,7 +32,7 @@ ASSUMPTIONS = [
 PROBES = ["ops", "plain_ops", "show_ops", "save_ops", "show_and_save_ops", "bulk_save_ops", "bulk_save_all_invalid", "bulk_save_empty",
           "outcome_unchanged", "outcome_fixed", "outcome_failed", "preview_hsl", "preview_alpha", "preview_tuple", "preview_named",
           "plain_after_preview", "report_files_written", "tty_runs", "no_color_runs", "decoy_runs", "subprocess_phase",
-          "slot_ops", "invalid_pair_with_show", "chdir_ops", "report_after_chdir"]
+          "slot_ops", "invalid_pair_with_show", "chdir_ops", "report_after_chdir", "force_color_env_runs", "big_bulk_ops"]
 
 QUICK = "cm_colors_quick_report.html"
 BULK = "cm_colors_bulk_report.html"
@@ -63,7 +63,8 @@ def generate(rseed, tier, idx):
     g = stream(rseed, "gen")
     e = stream(rseed, "env")
     env = {"tty": e.random() < 0.4, "no_color": e.random() < 0.3,
-           "decoys": e.random() < 0.5, "old_reports": e.random() < 0.3}
+           "decoys": e.random() < 0.5, "old_reports": e.random() < 0.3,
+           "force_color": e.choice((None, None, None, None, "FORCE_COLOR", "TTY_COMPATIBLE", "CLICOLOR_FORCE"))}
     n = g.randint(3, 20 if tier == "thorough" else 12)
     ops = []
     nslots = 0
@@ -96,8 +97,16 @@ def generate(rseed, tier, idx):
                 op["plain_first"] = g.random() < 0.5  # same-process plain call issued before (True) or after (False)
             ops.append(op)
         elif m < 0.82:
-            kind = g.choice(("normal", "normal", "normal", "empty", "all-invalid"))
+            kind = g.choice(("normal", "normal", "normal", "empty", "all-invalid", "big"))
             pairs = []
+            if kind == "big":
+                # a large batch of cheap (already readable) pairs: anything that only happens "for big inputs"
+                k0 = g.randrange(1 << 20)
+                for j in range(g.choice((25, 40, 120))):
+                    pairs.append([enc("#%06x" % (((k0 + 7919 * j) % (1 << 24)) & 0x3f3f3f)), enc("#ffffff")])
+                for _ in range(g.randint(0, 2)):
+                    t, b, large, tk = _pair(g, vr)
+                    pairs.insert(g.randrange(len(pairs)), [t, b])
             if kind == "normal":
                 for _ in range(g.randint(1, 4)):
                     t, b, large, tk = _pair(g, vr)
@@ -182,6 +191,8 @@ def execute(trace):
             bump("tty_runs")
         if env["no_color"]:
             bump("no_color_runs")
+        if env.get("force_color"):
+            bump("force_color_env_runs")
         ctx = apiops.Ctx()
         seen_preview_change = False
         nontrivial = False
@@ -189,7 +200,7 @@ def execute(trace):
         cur = ["cwd"]
 
         def run(op):
-            with apiops.Effects(root, tty=env["tty"], no_color=env["no_color"], cwd_rel=cur[0]) as fx:
+            with apiops.Effects(root, tty=env["tty"], no_color=env["no_color"], cwd_rel=cur[0], extra_env=env.get("force_color")) as fx:
                 r = apiops.run_op(op, ctx)
             return r, fx.summary()
 
@@ -215,6 +226,8 @@ def execute(trace):
             orc = oracles[i]
             if sop["op"] in ("newpair", "make_on", "readable_on"):
                 bump("slot_ops")
+            if op.get("bkind") == "big":
+                bump("big_bulk_ops")
             if not preview:
                 bump("plain_ops")
                 r, fxs = run(sop)
@@ -359,10 +372,12 @@ def shrink(trace):
         del t["ops"][i]
         if t["ops"]:
             yield t
-    if trace["env"] != {"tty": False, "no_color": False, "decoys": False, "old_reports": False}:
-        t = copy.deepcopy(trace)
-        t["env"] = {"tty": False, "no_color": False, "decoys": False, "old_reports": False}
-        yield t
+    if any(trace["env"].get(k) for k in ("tty", "no_color", "decoys", "old_reports", "force_color")):
+        for k in ("tty", "no_color", "decoys", "old_reports", "force_color"):
+            if trace["env"].get(k):
+                t = copy.deepcopy(trace)
+                t["env"][k] = None if k == "force_color" else False
+                yield t
     for i, o in enumerate(ops):
         for k in ("show", "save"):
             if o.get(k) and (o.get("show") and o.get("save")):
